@@ -47,11 +47,11 @@ type Node struct {
 	Default  string   `json:"default,omitempty"`
 	Results  []string `json:"results,omitempty"` // declared result fields (olive:results)
 	// ResultTypes optionally declares the item type per result (same index).
-	ResultTypes []string   `json:"resultTypes,omitempty"`
-	DataOutputs []string   `json:"dataOutputs,omitempty"`
+	ResultTypes []string `json:"resultTypes,omitempty"`
+	DataOutputs []string `json:"dataOutputs,omitempty"`
 	// Props: olive properties without a value - resolved by name from the
 	// instance variables whenever the task is requested
-	Props []string `json:"props,omitempty"`
+	Props       []string   `json:"props,omitempty"`
 	Retries     int        `json:"retries,omitempty"`
 	Defs        []EventDef `json:"defs,omitempty"`
 	ParallelMul bool       `json:"parallelMultiple,omitempty"`
@@ -144,6 +144,12 @@ type B struct {
 	G      *Graph
 	prefix string
 	n      *int
+	// Style of the generated ids (all styles give unique, legal XML names):
+	//   0  <kind><n>                    t3, t12 (one id may be a PREFIX of another)
+	//   1  q..q<kind><n/3>              t4, qt4, qqt4 (one id is a proper SUFFIX of another)
+	//   2  <kind | KIND><n/2>           t3, T3 (ids that differ only in case)
+	//   3  <kind>.<n>-é                 ids with dots, dashes and non-ASCII letters
+	Style int
 }
 
 func NewB() *B {
@@ -151,12 +157,37 @@ func NewB() *B {
 	return &B{G: &Graph{}, n: &c}
 }
 
+// NewBStyle is NewB with an id style.
+func NewBStyle(style int) *B {
+	b := NewB()
+	b.Style = style
+	return b
+}
+
 // Sub returns a builder for a nested graph sharing the id counter.
-func (b *B) Sub() *B { return &B{G: &Graph{}, n: b.n} }
+func (b *B) Sub() *B { return &B{G: &Graph{}, n: b.n, Style: b.Style} }
 
 func (b *B) fresh(p string) string {
 	*b.n++
-	return fmt.Sprintf("%s%d", p, *b.n)
+	n := *b.n
+	switch b.Style {
+	case 1:
+		// within a group of three consecutive ids of one kind the shorter ones are
+		// proper suffixes of the longer ones; every other group runs the other way
+		r := n % 3
+		if (n/3)%2 == 1 {
+			r = 2 - r
+		}
+		return fmt.Sprintf("%s%s%d", strings.Repeat("q", r), p, n/3)
+	case 2:
+		if n%2 == 1 {
+			return fmt.Sprintf("%s%d", strings.ToUpper(p), n/2)
+		}
+		return fmt.Sprintf("%s%d", p, n/2)
+	case 3:
+		return fmt.Sprintf("%s.%d-é", p, n)
+	}
+	return fmt.Sprintf("%s%d", p, n)
 }
 
 func (b *B) Add(kind string) *Node {
